@@ -52,7 +52,7 @@ CHECKS = {
          "Exploration: accounts, secrets, timestamps, status codes (boundaries and random) for CMPP 2.0, CMPP 3.0 and SMGP 3.0; a targeted stage keeps only credential sets whose digest has 0x00 first / inside / last (tens of thousands per quick run); the peer's recomputation from decoded fields must equal the decoded authenticator. One open known finding (LoginResp trailing 0x00).",
          "Trusted: crypto/md5; formula text in spec/extracted.", "DESIGN.md §5 C15"),
  "C16": ("runtime monitor: reference triplet emitter / strict parser as oracle for both containers and both parsers of each; no-fabrication check on arbitrary byte strings; boundary lengths; step budget",
-         "Exploration: parameter sets (0..32, tags 0..65535, lengths incl. 65531/65535) round-tripped through Bytes/Serialize and all four parsers; well-formed sequences with duplicates for parser agreement; damaged and random byte strings for the no-fabrication clause; value lengths 65529..65540 and 69990..70000 enumerated; Add on nil/empty containers and TP_udhi on short values. One open known finding (Add on a nil Options).",
+         "Exploration: parameter sets (0..32, tags 0..65535, lengths incl. 65531/65535) round-tripped through Bytes/Serialize and all four parsers; well-formed sequences with duplicates for parser agreement; damaged and random byte strings for the no-fabrication clause; value lengths 65529..65540 and 69990..70000 enumerated; Add on nil/empty containers and TP_udhi on short values. ",
          "Trusted: the 20-line strict walk.", "DESIGN.md §5 C16"),
  "C17": ("runtime monitor: bit-layout reference (shifts from the CMPP text) + round-trip oracles, every field enumerated over its full range",
          "Exhaustive per field (gateway: all 2^22 values) x three backgrounds, plus random tuples, boundary bit patterns and random 64-bit ids: CombineMsgID against the reference layout, Split(Combine)=id, Combine(Split)=id, decimal string form 22 digits and parse-back.",
